@@ -14,11 +14,11 @@ package main
 import (
 	"encoding/json"
 	"fmt"
+	"math/rand"
 	"os"
 	"path/filepath"
 	"regexp"
 	"sort"
-	"math/rand"
 	"strconv"
 	"strings"
 	"time"
